@@ -11,11 +11,13 @@
 package c10
 
 import (
+	"context"
 	"fmt"
 	"math/rand/v2"
 	"net/netip"
 	"net/url"
 	"strings"
+	"sync/atomic"
 	"testing"
 
 	"github.com/AdguardTeam/AdGuardDNS/internal/access"
@@ -26,6 +28,7 @@ import (
 	"github.com/AdguardTeam/AdGuardDNS/internal/dnssvc"
 	"github.com/AdguardTeam/AdGuardDNS/internal/filter"
 	"github.com/AdguardTeam/AdGuardDNS/internal/geoip"
+	"github.com/AdguardTeam/AdGuardDNS/internal/profiledb"
 	"github.com/AdguardTeam/AdGuardDNS/verif/stack"
 	"github.com/AdguardTeam/AdGuardDNS/verif/vkit"
 	"github.com/miekg/dns"
@@ -605,7 +608,44 @@ func (v verdict) bits() string {
 // servers, stack
 // ---------------------------------------------------------------------------
 
+// countingDB wraps the profile database handed to the stack and counts every
+// lookup, so that "this request reached the device / profile lookup" is an
+// observation.
+type countingDB struct {
+	inner profiledb.Interface
+	calls atomic.Int64
+}
+
+var _ profiledb.Interface = (*countingDB)(nil)
+
+func (d *countingDB) CreateAutoDevice(ctx context.Context, id agd.ProfileID, h agd.HumanID, t agd.DeviceType) (*agd.Profile, *agd.Device, error) {
+	d.calls.Add(1)
+	return d.inner.CreateAutoDevice(ctx, id, h, t)
+}
+
+func (d *countingDB) ProfileByDedicatedIP(ctx context.Context, ip netip.Addr) (*agd.Profile, *agd.Device, error) {
+	d.calls.Add(1)
+	return d.inner.ProfileByDedicatedIP(ctx, ip)
+}
+
+func (d *countingDB) ProfileByDeviceID(ctx context.Context, id agd.DeviceID) (*agd.Profile, *agd.Device, error) {
+	d.calls.Add(1)
+	return d.inner.ProfileByDeviceID(ctx, id)
+}
+
+func (d *countingDB) ProfileByHumanID(ctx context.Context, id agd.ProfileID, h agd.HumanIDLower) (*agd.Profile, *agd.Device, error) {
+	d.calls.Add(1)
+	return d.inner.ProfileByHumanID(ctx, id, h)
+}
+
+func (d *countingDB) ProfileByLinkedIP(ctx context.Context, ip netip.Addr) (*agd.Profile, *agd.Device, error) {
+	d.calls.Add(1)
+	return d.inner.ProfileByLinkedIP(ctx, ip)
+}
+
 type env struct {
+	db    *countingDB
+	geo   *stack.Geo
 	c     *config
 	s     *stack.Stack
 	g1    *agd.ServerGroup
@@ -703,12 +743,13 @@ func buildEnv(c *config) (*env, error) {
 		geo.SetSubnet(ctry, 0, 4, netip.MustParsePrefix("198.18.0.0/24"))
 		geo.SetSubnet(ctry, 0, 6, netip.MustParsePrefix("2001:db8:aa::/48"))
 	}
+	e.db, e.geo = &countingDB{inner: db}, geo
 	cc := &dnssvc.CacheConfig{Type: dnssvc.CacheTypeSimple, NoECSCount: 100000, ECSCount: 100000}
 	if c.Cache == "ecs" {
 		cc.Type = dnssvc.CacheTypeECS
 	}
 	e.s, err = stack.New(&stack.Options{
-		Cache: cc, ProfileDB: db, GeoIP: geo, AccessManager: glob,
+		Cache: cc, ProfileDB: e.db, GeoIP: geo, AccessManager: glob,
 		ServerGroups:    []*agd.ServerGroup{e.g1, e.g2},
 		FilteringGroups: map[agd.FilteringGroupID]*agd.FilteringGroup{"fg": fg},
 	})
@@ -742,7 +783,7 @@ type probe struct {
 	AddrKind string         `json:"addr_kind"`
 	NameKind string         `json:"name_kind"`
 	Mapped   bool           `json:"ipv4_mapped,omitempty"`
-	BadECS   bool           `json:"malformed_ecs,omitempty"`
+	BadECS   string         `json:"malformed_ecs,omitempty"` // key of badECS
 }
 
 var qtypes = []uint16{dns.TypeA, dns.TypeA, dns.TypeA, dns.TypeAAAA, dns.TypeAAAA, dns.TypeHTTPS, dns.TypeTXT, dns.TypeMX,
@@ -986,13 +1027,25 @@ func (e *env) genProbe(rng *rand.Rand, idx int) *probe {
 	return p
 }
 
+// badECS are raw client-subnet options (family, source prefix, scope, address)
+// that survive the wire format of the DNS library and are malformed for the
+// server (RFC 7871, section 6: FORMERR).
+var badECS = map[string][]byte{
+	"v4-host-bits":        {0, 1, 22, 0, 1, 2, 3},                            // 1.2.3.0/22: bits set beyond the prefix
+	"v6-host-bits":        {0, 2, 44, 0, 0x20, 0x01, 0x0d, 0xb8, 0x12, 0x3f}, // 2001:db8:123f::/44
+	"family-0":            {0, 0, 0, 0},                                      // unsupported address family
+	"v4-overlong-address": {0, 1, 8, 0, 10, 1, 2, 3},                         // 10.1.2.3/8
+}
+
+var badECSKinds = []string{"v4-host-bits", "v6-host-bits", "family-0", "v4-overlong-address"}
+
 // msg builds the request message of a probe.  Requests that carry a malformed
 // client-subnet option are round-tripped through the wire format, so that they
 // are exactly what a server would have parsed.
 func (p *probe) msg(id uint16) (*dns.Msg, error) {
 	m := stack.NewQuery(id, p.Name, p.QType, dns.ClassINET)
 	m.Question[0].Name = dns.Fqdn(p.Name)
-	if !p.EDNS && !p.BadECS {
+	if !p.EDNS && p.BadECS == "" {
 		return m, nil
 	}
 	m.SetEdns0(1232, p.DO)
@@ -1009,10 +1062,8 @@ func (p *probe) msg(id uint16) (*dns.Msg, error) {
 		opt.Option = append(opt.Option, &dns.EDNS0_SUBNET{Code: dns.EDNS0SUBNET, Family: fam,
 			SourceNetmask: uint8(pr.Bits()), Address: pr.Addr().AsSlice()})
 	}
-	if p.BadECS {
-		// family 1, source prefix 22, scope 0, address bytes 1.2.3: bits set
-		// beyond the source prefix (RFC 7871, section 6: FORMERR)
-		opt.Option = append(opt.Option, &dns.EDNS0_LOCAL{Code: dns.EDNS0SUBNET, Data: []byte{0, 1, 22, 0, 1, 2, 3}})
+	if p.BadECS != "" {
+		opt.Option = append(opt.Option, &dns.EDNS0_LOCAL{Code: dns.EDNS0SUBNET, Data: badECS[p.BadECS]})
 		b, err := m.Pack()
 		if err != nil {
 			return nil, err
@@ -1068,13 +1119,16 @@ type observed struct {
 	AttrProf      string   `json:"upstream_saw_profile,omitempty"`
 	AttrDev       string   `json:"upstream_saw_device,omitempty"`
 	SideEffects   int      `json:"side_effects_total"`
+	ProfileDB     int64    `json:"profile_database_lookups"`
+	GeoIP         int64    `json:"geoip_data_calls"`
 }
 
 func (e *env) serve(p *probe, m *dns.Msg) (*stack.Outcome, observed) {
-	before := e.s.UpstreamCalls()
+	before, dbBefore, geoBefore := e.s.UpstreamCalls(), e.db.calls.Load(), e.geo.Calls.Load()
 	out := e.s.Serve(e.request(p, m))
 	t := out.Trace
-	o := observed{Responses: len(out.Responses), UpstreamDelta: e.s.UpstreamCalls() - before}
+	o := observed{Responses: len(out.Responses), UpstreamDelta: e.s.UpstreamCalls() - before,
+		ProfileDB: e.db.calls.Load() - dbBefore, GeoIP: e.geo.Calls.Load() - geoBefore}
 	for _, r := range out.Responses {
 		o.Rcodes = append(o.Rcodes, r.Rcode)
 	}
@@ -1207,6 +1261,16 @@ func TestCheck(t *testing.T) {
 	r.Require("twin_cold_checked", 1500)
 	r.Require("cache_hits_on_passed", 100)
 	r.Require("ecs_option_probes", 800)
+	r.Require("globally_blocked_profiledb_observed", 1500)
+	for _, cause := range []string{"global-net", "global-name", "profile-net", "profile-asn", "profile-name"} {
+		r.Require("malformed_"+cause+"_malformed-ecs", 150)
+	}
+	r.Require("malformed_global-net_invalid-device-id", 150)
+	r.Require("malformed_global-name_invalid-device-id", 150)
+	for _, k := range badECSKinds {
+		r.Require("malformed_control_formerr_"+k, 20)
+	}
+	r.Require("malformed_control_device_id_error", 100)
 	for _, m := range []string{"dev:dot-sni", "dev:doq-sni", "dev:doh-path", "dev:doh-userinfo", "dev:dns-cpe", "dev:dns-linked", "dev:dns-dedicated",
 		"anon:dns-linked", "anon:dns-plain", "anon:dot-noname", "anon:doh-nopath", "anon:dnscrypt", "anon:noprofiles-dot", "anon:noprofiles-dns", "anon:unknown-device"} {
 		r.Require("blocked_by_method_"+m, 50)
@@ -1277,6 +1341,15 @@ func checkProbe(r *vkit.Run, e *env, p *probe, msgID *uint16, sampled map[string
 		}
 		if o.SideEffects > 0 || o.UpstreamDelta != 0 || o.RLCounts > 0 {
 			r.Violation("blocked:side-effects:"+suffix, "a request that the access settings reject reached a later stage (see observed counters)", w)
+		}
+		r.Bucket("blocked_geoip_calls", o.GeoIP)
+		if v.GNet || v.GName {
+			r.Bucket("globally_blocked_profiledb_observed", 1)
+			if o.ProfileDB > 0 {
+				r.Violation("blocked:profiledb-consulted:"+suffix, "a globally blocked request reached the device / profile-database lookup before it was dropped", w)
+			}
+		} else {
+			r.Bucket("profile_blocked_profiledb_lookups", o.ProfileDB)
 		}
 		// not cached: an identical request from a client nobody rejects must
 		// be resolved upstream
@@ -1380,31 +1453,114 @@ func checkProbe(r *vkit.Run, e *env, p *probe, msgID *uint16, sampled map[string
 	}
 }
 
-// malformedPhase: requests from a globally blocked subnet that additionally
-// fail a validation that the stack performs on every request (malformed
-// client-subnet option; TLS server name with an invalid device id).  The
-// statement quantifies over all requests from such a subnet.
+// malformedPhase: requests that the access settings reject AND that fail a
+// validation which the stack performs on every request (malformed
+// client-subnet option; invalid device id in the TLS server name, DoH path or
+// EDNS option).  The statement quantifies over all requests of a blocked
+// client / for a blocked name: they receive no response at all.  One base
+// request per cause (global net, global name, profile net, profile ASN, profile
+// name) is searched for in the configuration, then dressed with each defect.
 func malformedPhase(r *vkit.Run, e *env, rng *rand.Rand, msgID *uint16) {
 	c := e.c
-	if len(c.GlobalNets) == 0 {
-		return
+	neutralName := func() string {
+		c.ctr++
+		return fmt.Sprintf("m%d.neutral%d.example", c.ctr, c.Index)
 	}
-	g := c.GlobalNets[rng.IntN(len(c.GlobalNets))]
-	a := randIn(rng, g)
-	c.ctr++
-	name := fmt.Sprintf("m%d.neutral%d.example", c.ctr, c.Index)
-	for _, kind := range []string{"malformed-ecs", "invalid-device-id"} {
-		p := &probe{Index: -1, Method: "anon:dot-noname", Server: "dot", Prof: -1, Remote: netip.AddrPortFrom(a, 5353),
-			Local: e.local["dot"], Name: name, QType: dns.TypeA, AddrKind: "inside/g", NameKind: "neutral"}
-		if kind == "malformed-ecs" {
-			p.BadECS, p.Server, p.Method, p.Local = true, "dns-plain", "anon:dns-plain", e.local["dns-plain"]
-		} else {
-			p.SNI = "toolongid9." + deviceDomain
+	ruleName := func(rs ruleSpec) (string, uint16) {
+		c.ctr++
+		qt := dns.TypeA
+		if rs.QT != 0 {
+			qt = rs.QT
+			if rs.Neg {
+				qt = dns.TypeNS
+			}
 		}
-		v := c.judge(a, name, dns.TypeA, -1)
-		if !v.Blocked {
-			continue
+		if rs.Suffix && rng.IntN(2) == 0 {
+			return fmt.Sprintf("m%d.%s", c.ctr, rs.Domain), qt
 		}
+		return rs.Domain, qt
+	}
+	anonServers := []string{"dns-plain", "dot", "doh", "doq"}
+	type base struct {
+		cause string
+		p     probe
+	}
+	bases := []base{}
+	find := func(cause string, gen func() (probe, bool)) {
+		for try := 0; try < 40; try++ {
+			p, ok := gen()
+			if !ok {
+				continue
+			}
+			v := c.judge(p.Remote.Addr(), p.Name, p.QType, p.Prof)
+			if v.Blocked && v.cause() == cause {
+				bases = append(bases, base{cause, p})
+				return
+			}
+		}
+		r.Bucket("malformed_no_base_"+cause, 1)
+	}
+	anon := func(a netip.Addr, name string, qt uint16) probe {
+		srv := anonServers[rng.IntN(len(anonServers))]
+		return probe{Index: -1, Method: "anon:" + srv, Server: srv, Prof: -1, Remote: netip.AddrPortFrom(a, uint16(2000+rng.IntN(50000))),
+			Local: e.local[srv], Name: name, QType: qt, AddrKind: "any", NameKind: "any"}
+	}
+	attributed := func(pi int, a netip.Addr, name string, qt uint16) probe {
+		id := c.Profiles[pi].Devices[0].ID // the device found by id
+		p := probe{Index: -1, Prof: pi, Dev: id, Remote: netip.AddrPortFrom(a, uint16(2000+rng.IntN(50000))), Name: name, QType: qt,
+			AddrKind: "any", NameKind: "any"}
+		switch rng.IntN(4) {
+		case 0:
+			p.Method, p.Server, p.SNI = "dev:dot-sni", "dot", id+"."+deviceDomain
+		case 1:
+			p.Method, p.Server, p.SNI = "dev:doq-sni", "doq", id+"."+deviceDomain
+		case 2:
+			p.Method, p.Server, p.Path = "dev:doh-path", "doh", "/dns-query/"+id
+		default:
+			p.Method, p.Server, p.CPE = "dev:dns-cpe", "dns-plain", id
+		}
+		p.Local = e.local[p.Server]
+		return p
+	}
+	if len(c.GlobalNets) > 0 {
+		find("global-net", func() (probe, bool) {
+			return anon(randIn(rng, c.GlobalNets[rng.IntN(len(c.GlobalNets))]), neutralName(), dns.TypeA), true
+		})
+	}
+	if len(c.GlobalRules) > 0 {
+		find("global-name", func() (probe, bool) {
+			n, qt := ruleName(c.GlobalRules[rng.IntN(len(c.GlobalRules))])
+			return anon(neutralAddrs[rng.IntN(len(neutralAddrs))], n, qt), true
+		})
+	}
+	for _, cause := range []string{"profile-net", "profile-asn", "profile-name"} {
+		cause := cause
+		find(cause, func() (probe, bool) {
+			pi := rng.IntN(len(c.Profiles))
+			pr := &c.Profiles[pi]
+			switch cause {
+			case "profile-net":
+				if len(pr.BlockedNets) == 0 {
+					return probe{}, false
+				}
+				return attributed(pi, randIn(rng, pr.BlockedNets[rng.IntN(len(pr.BlockedNets))]), neutralName(), dns.TypeA), true
+			case "profile-asn":
+				if len(pr.BlockedASN) == 0 || len(c.Geo) == 0 {
+					return probe{}, false
+				}
+				return attributed(pi, randIn(rng, c.Geo[rng.IntN(len(c.Geo))].Net), neutralName(), dns.TypeA), true
+			default:
+				if len(pr.Rules) == 0 {
+					return probe{}, false
+				}
+				n, qt := ruleName(pr.Rules[rng.IntN(len(pr.Rules))])
+				return attributed(pi, neutralAddrs[rng.IntN(len(neutralAddrs))], n, qt), true
+			}
+		})
+	}
+
+	run := func(cause, defect, kind string, p *probe) {
+		v := c.judge(p.Remote.Addr(), p.Name, p.QType, p.Prof)
 		*msgID++
 		m, err := p.msg(*msgID)
 		if err != nil {
@@ -1412,21 +1568,74 @@ func malformedPhase(r *vkit.Run, e *env, rng *rand.Rand, msgID *uint16) {
 			return
 		}
 		_, o := e.serve(p, m)
-		w := witness{Config: c, Probe: p, Model: v, Observed: o, Note: kind}
-		r.Eval("malformed|"+kind, true)
-		r.Bucket("malformed_"+kind, 1)
+		w := witness{Config: c, Probe: p, Model: v, Observed: o, Note: defect + ": " + kind}
+		r.Eval("malformed|"+cause+"|"+defect+"|"+kind+"|"+p.Server, true)
+		r.Bucket("malformed_"+cause+"_"+defect, 1)
 		if o.Panic != "" {
 			r.Violation("panic:serve", "the handler panicked", w)
-			continue
+			return
 		}
 		if o.Responses > 0 || o.Err != "" {
-			// one key per kind of validation: a response written by the
-			// handler and an error returned by it (which dnsserver turns into
-			// a SERVFAIL response) are the same thing for the client
-			r.Violation("blocked:answered:global-net:"+kind, "a request from a globally blocked subnet is answered (FORMERR written / handler error that the server turns into SERVFAIL): this validation runs before the access check", w)
+			// one key per cause and kind of validation: a response written
+			// by the handler and an error returned by it (which dnsserver
+			// turns into a SERVFAIL response) are the same for the client
+			r.Violation("blocked:answered:"+cause+":"+defect, "a request that the access settings reject is answered (FORMERR written / handler error that the server turns into SERVFAIL): this validation runs before the access check", w)
 		}
 		if o.SideEffects > 0 || o.UpstreamDelta != 0 {
-			r.Violation("blocked:side-effects:global-net:"+kind, "a request from a globally blocked subnet reached a later stage", w)
+			r.Violation("blocked:side-effects:"+cause+":"+defect, "a request that the access settings reject reached a later stage", w)
 		}
+		if strings.HasPrefix(cause, "global-") && o.ProfileDB > 0 {
+			r.Violation("blocked:profiledb-consulted:"+cause, "a globally blocked request reached the device / profile-database lookup before it was dropped", w)
+		}
+	}
+	for _, b := range bases {
+		for _, k := range badECSKinds {
+			p := b.p
+			p.BadECS = k
+			run(b.cause, "malformed-ecs", k, &p)
+		}
+		if !strings.HasPrefix(b.cause, "global-") {
+			continue // a request with an invalid device id cannot be attributed
+		}
+		for _, k := range []string{"sni", "doh-path", "edns-cpe"} {
+			p := b.p
+			p.SNI, p.Path, p.CPE = "", "", ""
+			switch k {
+			case "sni":
+				p.Server, p.SNI = []string{"dot", "doq"}[rng.IntN(2)], "toolongid9."+deviceDomain
+			case "doh-path":
+				p.Server, p.Path = "doh", "/dns-query/toolongid9"
+			default:
+				p.Server, p.CPE = "dns-plain", "toolongid9"
+			}
+			p.Method, p.Local = "anon:"+p.Server, e.local[p.Server]
+			run(b.cause, "invalid-device-id", k, &p)
+		}
+	}
+	// control: the same defects from a client that nobody rejects ARE answered
+	// (otherwise the probes above would prove nothing)
+	for _, n := range neutralAddrs {
+		name := neutralName()
+		if c.judge(n, name, dns.TypeA, -1).Blocked {
+			continue
+		}
+		k := badECSKinds[rng.IntN(len(badECSKinds))]
+		p := anon(n, name, dns.TypeA)
+		p.BadECS = k
+		*msgID++
+		if m, err := p.msg(*msgID); err == nil {
+			if _, o := e.serve(&p, m); o.Responses == 1 && len(o.Rcodes) == 1 && o.Rcodes[0] == dns.RcodeFormatError {
+				r.Bucket("malformed_control_formerr_"+k, 1)
+			}
+		}
+		q := anon(n, name, dns.TypeA)
+		q.Server, q.Method, q.Local, q.SNI = "dot", "anon:dot", e.local["dot"], "toolongid9."+deviceDomain
+		*msgID++
+		if m, err := q.msg(*msgID); err == nil {
+			if _, o := e.serve(&q, m); o.Err != "" {
+				r.Bucket("malformed_control_device_id_error", 1)
+			}
+		}
+		break
 	}
 }
